@@ -721,6 +721,8 @@ class Interp:
             else:
                 assert isinstance(v, ast.FormattedValue)
                 x = self.ev(v.value, f)
+                if isinstance(x, SInt):
+                    x = self._conc_int(x)  # e.g. struct formats built from lengths the path condition fixes
                 if ops.has_sym(x):
                     return OpaqueStr()
                 spec = ""
@@ -1175,6 +1177,15 @@ class Interp:
                 return self._call_closure(fn, args, kwargs)
             if isinstance(fn, ExtMethod):
                 return fn.obj.vf_call(self, fn.name, args, kwargs, f)
+            if isinstance(fn, types.BuiltinMethodType) and fn.__name__ == "join" and isinstance(fn.__self__, (bytes, bytearray)) \
+                    and ops.has_sym(args):
+                parts = list(self.iterate(args[0], f))
+                out: Any = b""
+                for i, part in enumerate(parts):
+                    if i and len(fn.__self__):
+                        out = ops.bytes_concat(out, fn.__self__)
+                    out = part if (i == 0 and not len(fn.__self__)) else ops.bytes_concat(out, part)
+                return as_sbytes(out) if ops.has_sym(out) else out
             if isinstance(fn, models.Partial):
                 kw = dict(fn.kwargs)
                 kw.update(kwargs)
